@@ -570,6 +570,79 @@ Lemma example_concrete_queries :
   resolve cvalid sat (LOk ex_idx) [mkDep "app" "^1"; mkDep "pre" "*"] = None.
 Proof. vm_compute. repeat split; try reflexivity. discriminate. Qed.
 
+(* ---------- shape of a parsed constraint; the pre-release rule on strings ---------- *)
+
+Lemma map_opt_length {A B : Type} (f : A -> option B) l r :
+  map_opt f l = Some r -> List.length r = List.length l.
+Proof.
+  revert r. induction l as [|a t IH]; simpl; intros r H.
+  - inversion H. reflexivity.
+  - destruct (f a); [|discriminate]. destruct (map_opt f t) eqn:E; [|discriminate].
+    inversion H. simpl. f_equal. apply IH. reflexivity.
+Qed.
+
+Lemma map_opt_in {A B : Type} (f : A -> option B) l r b :
+  map_opt f l = Some r -> In b r -> exists a, In a l /\ f a = Some b.
+Proof.
+  revert r. induction l as [|a t IH]; simpl; intros r H Hin.
+  - inversion H; subst. destruct Hin.
+  - destruct (f a) eqn:Fa; [|discriminate]. destruct (map_opt f t) eqn:E; [|discriminate].
+    inversion H; subst. destruct Hin as [->|Hin].
+    + exists a. auto.
+    + destruct (IH l eq_refl Hin) as (a' & Ha & Hf). exists a'. auto.
+Qed.
+
+Lemma split_oror_nonempty s : split_oror s <> [].
+Proof.
+  destruct s as [|c t]; [discriminate|].
+  destruct c as [[] [] [] [] [] [] [] []];
+    try (simpl; destruct (split_oror t); discriminate).
+  (* c is the bar *)
+  destruct t as [|c' t']; [discriminate|].
+  destruct c' as [[] [] [] [] [] [] [] []]; simpl; try discriminate;
+    destruct (split_oror t'); discriminate.
+Qed.
+
+(* a string that parses has at least one OR-group and no empty AND-group: Check is never
+   true for lack of constraints *)
+Lemma new_constraint_nonempty c cs :
+  new_constraint c = Some cs -> cs <> [] /\ Forall (fun g => g <> []) cs.
+Proof.
+  unfold new_constraint. intros H. split.
+  - intros ->. apply map_opt_length in H. simpl in H.
+    destruct (split_oror (rewrite_range c)) eqn:E; [now apply split_oror_nonempty in E|discriminate].
+  - apply Forall_forall. intros g Hg.
+    destruct (map_opt_in _ _ _ _ H Hg) as (v & _ & Hv).
+    unfold parse_and_group in Hv. destruct (negb (re_matches valid_re v)); [discriminate|].
+    intros ->. apply map_opt_length in Hv. simpl in Hv.
+    destruct (map fst (find_all find_re v)); simpl in Hv; discriminate.
+Qed.
+
+(* the pre-release rule on constraint STRINGS, per AND-group as the library applies it: a
+   pre-release version satisfies a string only through an OR-group every member of which
+   either names a pre-release version itself or is "!=" with a full version *)
+Definition admits_prerelease (k : constr) : bool :=
+  negb (is_stable (k_con k)) ||
+  (match k_fn k with FNotEqual => true | _ => false end && negb (k_dirty k)).
+
+Lemma prerelease_needs_prerelease_group c v :
+  sat c v = true -> is_stable v = false ->
+  exists cs g, new_constraint c = Some cs /\ In g cs /\ g <> [] /\
+               (forall k, In k g -> ccheck v k = true /\ admits_prerelease k = true).
+Proof.
+  intros Hs Hv. apply sat_spec in Hs. destruct Hs as (cs & g & E & Hin & Hall).
+  exists cs, g. split; auto. split; auto. split.
+  - destruct (new_constraint_nonempty c cs E) as (_ & F).
+    rewrite Forall_forall in F. now apply F.
+  - intros k Hk. split; [now apply Hall|].
+    unfold admits_prerelease. destruct (is_stable (k_con k)) eqn:Sk; simpl; auto.
+    destruct (k_fn k) eqn:Fk; simpl;
+      try (rewrite (pre_release_rule v k Hv Sk) in Hall; [specialize (Hall k Hk); discriminate|congruence]);
+      try (pose proof (Hall k Hk) as Hc; rewrite (pre_release_rule v k Hv Sk) in Hc; [discriminate|congruence]).
+    destruct (k_dirty k) eqn:Dk; simpl; auto.
+    pose proof (Hall k Hk) as Hc. rewrite (pre_release_rule v k Hv Sk) in Hc; [discriminate|auto].
+Qed.
+
 (* ---------- the statements quoted by Props/C18.v ---------- *)
 
 Lemma caret_ranges :
